@@ -186,6 +186,7 @@ package cli
 // buffer holds the bytes from i.offset on. Invariant: the window never starts after the consumption
 // point, so a later error - which lies at or after it, possibly in data read ahead - is inside the
 // window and the offset relative to the window is meaningful.
+//@ property C17
 //@ invariant-of (i *jsonInputIter) i.ir != nil && 0 <= i.offset && i.offset <= ghost(i, "cons") && ghost(i, "cons") <= ghost(i, "read") && ghost(i, "read") <= 1 << 62
 //@ invariant-of (i *jsonInputIter) i.ir.buf != nil ==> i.offset + len(out(i.ir.buf)) == ghost(i, "read")
 
